@@ -26,11 +26,14 @@ def grammars(tier, seed, n_random=1500, exhaustive_prods=3):
         elif r < 0.18: vs = [vs[0]] + [1, 2][:nv - 1]
         r2 = rng.random()
         ts = ['a', 'b'] if r2 < 0.8 else (['a', rng.choice(RESERVED_T)] if r2 < 0.88 else rng.choice([['a', 'ab', 'b', 'bb'], [1, 12, 2, 22], ['a', 'ab', 'b']]))
-        if set(vs) & set(ts): ts = ['a', 'b']          # a variable and a terminal with the same value are not distinguishable by the library (value-class asymmetry, DESIGN 2.1): out of scope
         yield S.random_grammar(rng, vs, ts, rng.choice([2, 3, 3, 4]), rng.choice([2, 3, 4, 5, 6])), 'random'
     rng3 = random.Random(seed * 15485863 + 3)          # appended family (the random stream above is unchanged)
     for i in range(n_random // 3):
         yield S.random_nullable_heavy(rng3), 'random nullable-heavy, 3-5 variables'
+    for i in range(n_random // 5):
+        # a variable and a terminal with the same value ('A' / 'A', 1 / 1, 'a' / 'a'): different symbols of one grammar (fix a638715)
+        vs = ['S'] + rng3.sample(['A', 'a', 1, 'b'], rng3.choice([1, 2])); ts = rng3.sample(['A', 'a', 1, 'b', 'S'], rng3.choice([2, 3]))
+        yield S.random_grammar(rng3, vs, ts, rng3.choice([2, 3]), rng3.choice([2, 3, 4, 5])), 'random, a variable and a terminal with one value'
     for i in range(n_random // 10):
         # variables that carry the names the binarisation would hand out next (C#CNF#1, C#CNF#2, ...), with bodies long enough to need new variables
         vs = ['S', 'C#CNF#1', 'C#CNF#2'] if rng3.random() < 0.7 else ['S', 'C#CNF#1', 'C#CNF#2', 'C#CNF#3']
